@@ -59,6 +59,11 @@ def cases(tier, seed):
     for i in range(24 if not T else 300):
         cs.append({'gen': 'breakpoints', 'kind': 'tail', 'N': [0, 0, 0] if i % 3 else [2, 0, 0, 0], 'M': None if i % 4 != 3 else 'ones', 'dtype': ['f64', 'c128', 'f64', 'f32'][i % 4],
                    'rmax': 'none', 'grid': 20 if not T else 40, 'r': rng.randint(5, 12)})
+    # directed: LONG unfoldings (4e4 .. 2e5 columns) with genuine content at 1e-11 of the norm (x = a + 1e-11 b), rounded at eps = 0 / 1e-12 without rank cap: a "numerical rank"
+    # tolerance that grows with the matrix size (max(rows, cols) * machine eps) would discard it
+    for i in range(4 if not T else 24):
+        shp = [([3, 200, 2], [3, 200, 2]), ([4, 50000, 3], None), ([60000, 4], None), ([2, 150, 3], [2, 300, 1])][i % 4]
+        cs.append({'gen': 'random', 'kind': 'long_small_term', 'N': shp[0], 'M': shp[1], 'dtype': ['f64', 'c128'][(i // 4) % 2], 'eps': [0.0, 1e-12][(i // 2) % 2], 'rmax': 'none'})
     from .. import hist
     cs += hist.cases(PROP, tier, seed)
     # directed: deep geometric decay (singular values 10^(-1.25 j) down to 1e-12 of the norm), explored from eps = 1e-13 upwards: tails that matter only at tiny eps
@@ -137,6 +142,12 @@ def build(case, ctx, g):
         x = gens.make_tt(N, R, dt, 'gauss', g, M=M)
         y = ctx.call('add', lambda a: a + a, x)
         return ctx.call('sub', lambda a, b: a - b, y, x)
+    if kind == 'long_small_term':
+        a = gens.make_tt(N, [1] + [2] * (d - 1) + [1], dt, 'gauss', g, M=M)
+        b = gens.make_tt(N, [1] * (d + 1), dt, 'gauss', g, M=M)
+        fa, fb = dn.fro(dn.D(a)), dn.fro(dn.D(b))
+        ctx.count('kind:long-unfolding-with-a-1e-11-term')
+        return ctx.call('add', lambda p, q: p + (1e-11 * fa / max(fb, 1e-300)) * q, a, b)
     if kind == 'cancel':
         a = gens.make_tt(N, R, dt, 'gauss', g, M=M)
         b = gens.make_tt(N, R, dt, 'gauss', g, M=M)
